@@ -148,8 +148,8 @@ def loose_outcome(p):
             parts.append("do " + summ.arith_text(e, lens))
         elif k == "carry":
             parts.append("next %s = %s" % (t, summ.arith_text(e, lens)))
-        elif k in ("del", "with", "jump"):
-            parts.append("%s %s" % (k, t))
+        elif k in ("del", "with") or (k == "jump" and t == "break"):
+            parts.append("%s %s" % (k, t))     # `continue` only ends the iteration: the same as reaching the end of the body
         elif k == "final":
             parts.append("final %s = %s" % (t, summ.arith_text(e, lens) if isinstance(e, ast.AST) else e))
     k, e = p.result if p.result else ("none", None)
